@@ -927,6 +927,7 @@ class Prims:
         R("typing.cast", lambda ex, st, a, k, n: a[1])  # dropped by extraction: cast(T, x) -> x
         R("numpy.concatenate", lambda ex, st, a, k, n: seq_concat(a[0][0], a[0][1]) if len(a[0]) == 2 else (_ for _ in ()).throw(Unsupported("concatenate of other than two arrays")))
         R("builtins.slice", lambda ex, st, a, k, n: slice(*a))
+        R("builtins.reversed", lambda ex, st, a, k, n: list(reversed(a[0])) if isinstance(a[0], (list, tuple, range)) else (SSeq(a[0].length, lambda i, s_=a[0]: s_.fn(s_.length - 1 - i), kind=a[0].kind, elem_sort=a[0].elem_sort) if isinstance(a[0], SSeq) else (_ for _ in ()).throw(Unsupported("reversed of an opaque value"))))
         R("numpy.full", self.m_full)
         R("numpy.where", self.m_where)
         R("numpy.zeros_like", lambda ex, st, a, k, n: SSeq(a[0].length, lambda i: z3.IntVal(0), kind="array"))
